@@ -77,8 +77,19 @@ def oracle(case, rec, pts=None):
 
     why = []
 
+    memo = {}
+
     def explain(l, r, depth=0):
-        inner = [k for k in K if l < k < r]
+        # explain(l, r) depends only on (l, r) for the fixed index set K: memoised, so a wrong K
+        # costs O(|K|^2) sub-problems instead of an exponential backtracking search
+        if (l, r) not in memo:
+            memo[(l, r)] = explain_(l, r, depth)
+        return memo[(l, r)]
+
+    import bisect
+
+    def explain_(l, r, depth=0):
+        inner = K[bisect.bisect_right(K, l):bisect.bisect_left(K, r)]
         c = cost(l, r)
         if c == t:
             stats['boundary'] += 1
